@@ -63,7 +63,9 @@ func (s *Service) handleConnection(socket *websocket.Conn) {
 	}
 
 	// now add the new connected client
+	s.mutex.Lock()
 	s.clients = append(s.clients, client)
+	s.mutex.Unlock()
 
 	// dispatch incoming events
 	s.routine(client)
@@ -188,7 +190,9 @@ func (s *Service) dispatch(response map[string]map[string]any, client *ClientSer
 		}
 
 		// check if that agent name is already registered.
+		s.mutex.Lock()
 		if s.AgentExist(as.Name) {
+			s.mutex.Unlock()
 			logger.Error(fmt.Sprintf("Service agent \"%v\"already registered ", as.Name))
 			return
 		}
@@ -196,6 +200,7 @@ func (s *Service) dispatch(response map[string]map[string]any, client *ClientSer
 		as.service = s
 
 		s.Agents = append(s.Agents, as)
+		s.mutex.Unlock()
 
 		logger.Info(fmt.Sprintf("%v registered a new agent %v", "["+colors.BoldWhite("SERVICE")+"]", "[Name: "+colors.Blue(as.Name)+"]"))
 
@@ -716,6 +721,11 @@ func (s *Service) ClientClose(client *ClientService) {
 		return
 	}
 
+	// one leaver at a time: two connections that end at the same moment walked and
+	// shortened the same tables
+	s.mutex.Lock()
+	defer s.mutex.Unlock()
+
 	for i := range s.clients {
 		if s.clients[i] == client {
 
@@ -778,7 +788,9 @@ func (s *Service) ListenerExist(Name string) bool {
 func (s *Service) ListenerAdd(listener *ListenerService) {
 	logger.Info(fmt.Sprintf("%v registered a new listener %v %v", "["+colors.BoldWhite("SERVICE")+"]", "[Name: "+colors.Blue(listener.Name)+"]", "[Agent: "+colors.Blue(listener.Agent)+"]"))
 	if listener != nil {
+		s.mutex.Lock()
 		s.Listeners = append(s.Listeners, listener)
+		s.mutex.Unlock()
 
 		pk := events.Service.ListenerRegister(listener.Json())
 		s.Teamserver.EventAppend(pk)
